@@ -27,7 +27,7 @@ def main():
     kind = sys.argv[1]
     base = os.path.join(VERIF, "seeded") if kind == "seeded" else os.path.join(VERIF, "seeded", kind)      # refactor | micro
     ids = sys.argv[2:] or sorted(d for d in os.listdir(base) if os.path.isfile(os.path.join(base, d, "patch.diff")))
-    resf = os.path.join(base, "RESULTS.json")
+    resf = os.environ.get("NXM_RESULTS") or os.path.join(base, "RESULTS.json")     # NXM_RESULTS: a partial result file (parallel runs, merged afterwards)
     res = json.load(open(resf)) if os.path.exists(resf) else {}
     for i in ids:
         sync()
